@@ -276,3 +276,22 @@ def _run_hypothesis(facet, tier, seed, shard, n_shards, known_sigs, res, shrink_
         found[v.signature] = {"spec": spec, "message": v.message}
         # the remaining budget continues behind this root cause
     res.violations.update(found)
+
+
+def guarded(name, fn):
+    """wrap a check whose property says 'handled for every accepted input': an exception raised inside kappadata for a generated,
+    valid input (not a documented refusal handled by the check itself) is a violation, not a harness error"""
+    import traceback as _tb
+
+    def run(spec):
+        try:
+            return fn(spec)
+        except (Violation, Refused, CaseTimeout):
+            raise
+        except Exception as e:
+            frames = [f for f in _tb.extract_tb(e.__traceback__) if "/kappadata/" in f.filename]
+            if not frames:
+                raise
+            where = frames[-1].filename.split("/")[-1]
+            raise Violation(f"{name}:raises:{type(e).__name__}:{where}", f"{e!r}"[:300])
+    return run
